@@ -1044,11 +1044,3 @@ Proof.
   unfold has_obs. rewrite (mi_has _ HI'), Hall. reflexivity.
 Qed.
 
-Print Assumptions dispatch_exact_entity.
-Print Assumptions dispatch_exact_entity_rel.
-Print Assumptions dispatch_exact_add.
-Print Assumptions dispatch_exact_remove.
-Print Assumptions dispatch_exact_set.
-Print Assumptions fired_entity_independent.
-Print Assumptions total_count_exact.
-Print Assumptions reset_clears_all.
